@@ -13,6 +13,11 @@ def cfgInt (c : Case) (k : String) (d : Int) : Int :=
   | some [_, v] => (parseInt v).getD d
   | _ => d
 
+def cfgStr (c : Case) (k : String) (d : String) : String :=
+  match c.cfg.find? (fun l => l.head? == some k) with
+  | some [_, v] => v
+  | _ => d
+
 def emLine (e : Emission) : List String :=
   (if e.late then "lemit" else "emit") :: hex e.key :: toString e.start :: toString e.stop :: e.rows.map (fun r => toString r.id)
 
@@ -73,16 +78,37 @@ def evsOfObs (obs : List (List String)) (gaps : List Gap) : List SessSpec.Ev := 
   let arrs := (List.range n).flatMap (fun k => (gaps.filter (·.k == k)).map (fun g => SessSpec.Ev.arr g.key g.id g.ts))
   return firsts ++ arrs ++ lates
 
-/-- known-finding classifier (C10): an on-time row arrives out of order *across a gap* — its own
-session is not the key's open head session (it lies a full timeout or more below the head's start,
-or inside the reach of a parked session of the key) -/
-def acrossGap (w : SWin) (k : Key) (ts : Int) (now : Int) : Bool :=
-  let wm' := Wm.updateEventTime w.wm ts now
-  if Wm.isLate wm' ts then false else
-  match head? w k with
-  | none => w.sessions.any (fun s => s.key == k && decide (ts < s.stop))
-  | some h => decide (ts + w.timeout ≤ h.start) ||
-              w.sessions.any (fun s => s.key == k && s.park != 0 && decide (ts < s.stop))
+/-- SQL-level stage for session windows (in-order input): oracle only, plus the aggregate columns. -/
+def runSql (c : Case) : CaseOut := Id.run do
+  let ms : Int := 1000000
+  let timeout := cfgInt c "timeout" 1000 * ms
+  let mut evs : List SessSpec.Ev := []
+  let mut emits : List SessSpec.Ev := []
+  let mut bad : Option String := none
+  for (op, implObs) in c.ops do
+    match op with
+    | ["row", id, ts, k] =>
+      let t := if ts == "none" then none else (parseInt ts).map (· * ms)
+      evs := evs ++ [SessSpec.Ev.arr ((unhex k).getD []) ((parseNat id).getD 0) t]
+    | ["flush"] =>
+      for l in implObs do
+        match l with
+        | "res" :: ws :: we :: k :: cnt :: sum :: wid :: ids =>
+          let idl := ids.filterMap parseNat
+          if (parseNat cnt).getD 0 != idl.length && bad.isNone then bad := some "count-differs-from-rows-of-the-session"
+          if (parseNat sum).getD 0 != idl.foldl (· + ·) 0 && bad.isNone then bad := some "sum-differs-from-rows-of-the-session"
+          if wid != "t" && bad.isNone then bad := some "window_id-not-start_end"
+          emits := emits ++ [SessSpec.Ev.emit false ((unhex k).getD []) ((parseInt ws).getD 0) ((parseInt we).getD 0) idl]
+        | ["sentinel-lost"] => if bad.isNone then bad := some "sentinel-session-never-delivered"
+        | _ => if bad.isNone then bad := some "unreadable-result-line"
+    | _ => pure ()
+  let scfg : SessSpec.Cfg := { timeout := timeout, ooo := 0, lateness := 0, now := 1700000000000000000 }
+  let spec := match bad with
+    | some b => "fail:" ++ b
+    | none => match SessSpec.holds scfg (evs ++ emits) true with
+      | none => "ok"
+      | some e => "fail:" ++ e
+  return { obs := c.ops.map (fun p => p.2), spec := spec, tags := ["sql-level-oracle-only"] }
 
 def run (c : Case) : CaseOut := Id.run do
   let timeout := cfgInt c "timeout" 1000
@@ -103,12 +129,12 @@ def run (c : Case) : CaseOut := Id.run do
       let key := match rest with | kh :: _ => (unhex kh).getD [] | [] => []
       match ts with
       | some t =>
-        if acrossGap w key t now then cls := "out-of-order-across-gap"
         let wm' := Wm.updateEventTime w.wm t now
         let tg := if Wm.isLate wm' t then (if (findTrig w key t wm'.cur).isSome && late > 0 then "late-absorbed" else "late-drop")
-                  else match head? w key with
-                    | none => "new-session"
-                    | some h => if h.stop ≤ t then "gap-parks-head" else (if t < h.start then "extends-head-backwards" else "extends-head")
+                  else match touched w key { id := id, ts := t } with
+                    | [] => (if w.sessions.any (fun s => s.key == key) then "new-session-beside-open-ones" else "new-session")
+                    | [h] => (if t < h.start then "extends-session-backwards" else "extends-session")
+                    | _ => "bridges-and-merges-sessions"
         unless tags.contains tg do tags := tg :: tags
       | none => unless tags.contains "no-timestamp" do tags := "no-timestamp" :: tags
       let (w', es) := addRow w key id ts now
@@ -118,10 +144,6 @@ def run (c : Case) : CaseOut := Id.run do
       flushed := false
     | "deliver" :: gs =>
       let gaps := gs.filterMap parseGap
-      for g in gaps do
-        match g.ts with
-        | some t => if acrossGap w g.key t now then cls := "out-of-order-across-gap"
-        | none => pure ()
       match deliver w gaps now with
       | none => obs := obs ++ [[["idle"]]]
       | some (w', es) =>
